@@ -212,7 +212,7 @@ def exStep : Step := fun v => match v with | .obj i => .ok (.obj (i * 8 + 1)) | 
 
 /-- `@validate(Parameter('b', validators=[V]), Parameter('a', validators=[V]))  def f(a, b=<obj 50>)` (names: a = 2, b = 3) -/
 def exCfg : Cfg :=
-  { ps := [⟨3, true, none, none, none, [exStep], false⟩, ⟨2, true, none, none, none, [exStep], false⟩],
+  { ps := [⟨3, true, none, none, none, [exStep], false, by decide⟩, ⟨2, true, none, none, none, [exStep], false, by decide⟩],
     sig := { pos := [⟨2, none⟩, ⟨3, some (.obj 50)⟩], varArgs := false, kwOnly := [] }, strict := true, ignoreInput := false, req := .noContext }
 
 -- f(100, b=101), f(b=101, a=100), f(100, 101) in ARGS mode (the region of the former defect) and in the keyword modes
@@ -228,7 +228,7 @@ example : byName exCfg .args [.obj 100] [(3, .obj 101)] = .ok [(2, .obj 801), (3
 /-- `b` not required, falsy non-None value `obj 1` (Python `0`) under KWARGS_WITHOUT_NONE: it is *kept* (the filter is
     `is not None`, not truthiness), while None is dropped and the signature default applies -/
 def exCfg2 : Cfg :=
-  { exCfg with ps := [⟨3, false, none, none, none, [], false⟩, ⟨2, true, none, none, none, [], false⟩] }
+  { exCfg with ps := [⟨3, false, none, none, none, [], false, by decide⟩, ⟨2, true, none, none, none, [], false, by decide⟩] }
 example : runValidate exCfg2 false .kwWithoutNone [.obj 100] [(3, .obj 1)] = .ok ⟨[(2, .obj 100), (3, .obj 1)], []⟩ := by rfl
 example : runValidate exCfg2 false .kwWithoutNone [.obj 100] [(3, .none)] = .ok ⟨[(2, .obj 100), (3, .obj 50)], []⟩ := by rfl
 example : runValidate exCfg2 false .kwWithNone [.obj 100] [(3, .none)] = .ok ⟨[(2, .obj 100), (3, .none)], []⟩ := by rfl
@@ -238,7 +238,7 @@ example : runValidate exCfg2 false .kwWithNone [.obj 100] [(3, .none)] = .ok ⟨
     the surplus keyword `self` is popped and passed positionally, the body sees `a = 5` — whereas by name `a` keeps its
     default (and Python itself would refuse the keyword). -/
 def exCfgSelf : Cfg :=
-  { ps := [⟨3, false, none, none, none, [], false⟩],
+  { ps := [⟨3, false, none, none, none, [], false, by decide⟩],
     sig := { pos := [⟨2, some (.obj 60)⟩, ⟨3, some (.obj 50)⟩], varArgs := false, kwOnly := [] }, strict := false, ignoreInput := false, req := .noContext }
 example : runValidate exCfgSelf false .kwWithNone [] [(selfName, .obj 5)] = .ok ⟨[(2, .obj 5), (3, .obj 50)], []⟩ := by rfl
 example : byName exCfgSelf .kwWithNone [] [(selfName, .obj 5)] = .ok [(2, .obj 60), (3, .obj 50)] := by rfl
